@@ -121,6 +121,16 @@ Proof.
 Qed.
 Print Assumptions C07_metrics_partial.
 
+(* euclidean (2pi-wrapped angle distance) and rmse: the 1-D branch equals the N-row branch (one-row and two-row batches) *)
+Theorem C07_euclidean_rmse_branches_agree : forall k_a0 k_a1 k_a2 k_b0 k_b1 k_b2 a0 a1 a2 b0 b1 b2,
+  C07_euclidean_b1_R a0 a1 a2 b0 b1 b2 = C07_euclidean_s_R a0 a1 a2 b0 b1 b2 /\
+  C07_euclidean_b2_R k_a0 k_a1 k_a2 k_b0 k_b1 k_b2 a0 a1 a2 b0 b1 b2 = C07_euclidean_s_R a0 a1 a2 b0 b1 b2 /\
+  C07_rmse_b1_R a0 a1 a2 b0 b1 b2 = C07_rmse_s_R a0 a1 a2 b0 b1 b2.
+Proof.
+  intros. split; [apply euclidean_twin|]. split; [apply euclidean_twin2|apply rmse_twin].
+Qed.
+Print Assumptions C07_euclidean_rmse_branches_agree.
+
 (* lifting to all N >= 0 rows: an array entry point that treats the row axis by broadcasting or by a loop is the map of
    its row function (Gallina model `batch`); row-wise equality with the scalar entry point then gives batch = map scalar,
    and row i of the batch is the scalar call on row i *)
